@@ -31,9 +31,9 @@ NOBUILTIN = ["-fno-builtin-memcpy", "-fno-builtin-memset", "-fno-builtin-memmove
 FLAVOURS = {
     "tsh-avx2": dict(repo=["-O3", "-g1", "-fopenmp", "-mavx2", "-fsanitize=thread"] + NOBUILTIN, harness=[], link=[], heap=True),
     "tsh-avx512": dict(repo=["-O3", "-g1", "-fopenmp", "-mavx2", "-mavx512f", "-D__AVX512__", "-fsanitize=thread"] + NOBUILTIN, harness=[], link=[], heap=True),
-    "asan-avx2": dict(repo=["-O1", "-g1", "-fopenmp", "-mavx2", "-fsanitize=address,undefined", "-fno-sanitize-recover=all", "-fno-omit-frame-pointer"] + NOBUILTIN,
+    "asan-avx2": dict(repo=["-O1", "-g1", "-fopenmp", "-mavx2", "-fsanitize=address,undefined", "-fno-sanitize=vla-bound", "-fno-sanitize-recover=all", "-fno-omit-frame-pointer"] + NOBUILTIN,
                       harness=["-DSIM_ASAN", "-fsanitize=address"], link=["-fsanitize=address,undefined"], heap=False),
-    "asan-avx512": dict(repo=["-O1", "-g1", "-fopenmp", "-mavx2", "-mavx512f", "-D__AVX512__", "-fsanitize=address,undefined", "-fno-sanitize-recover=all", "-fno-omit-frame-pointer"] + NOBUILTIN,
+    "asan-avx512": dict(repo=["-O1", "-g1", "-fopenmp", "-mavx2", "-mavx512f", "-D__AVX512__", "-fsanitize=address,undefined", "-fno-sanitize=vla-bound", "-fno-sanitize-recover=all", "-fno-omit-frame-pointer"] + NOBUILTIN,
                         harness=["-DSIM_ASAN", "-fsanitize=address"], link=["-fsanitize=address,undefined"], heap=False),
     "plain-avx2": dict(repo=["-O3", "-g1", "-fopenmp", "-mavx2"] + NOBUILTIN, harness=["-DSIM_PLAIN"], link=[], heap=True),
 }
